@@ -42,6 +42,10 @@ CHECKS = {
    "explicit-state BFS to closure over the real RWMutex (private-state key) vs POSIX one-byte model; exhaustive blocking-variant matrix on the synctest fake clock",
    "Every operation from every reachable state of one real RWMutex with four guards is executed and compared with the reader/writer rules (20 states x 20 operations, closure reached); blocking Lock/RLock are decided for every holder/waiter/event/timing combination on a fake clock. Complete for the stated alphabet, which is the property's own quantifier.",
    "Trusted: Go runtime, testing/synctest fake clock. Data races are only covered by the auxiliary free-running -race pass.", "§4 C12"),
+ "C19": ("model_checking", "E1-inputs",
+   "exhaustive request matrix against the real ProxyServer handler on the fake clock with a stub application behind an in-memory dialer",
+   "Every combination of role (primary, replica with known primary, node without primary) x 7 methods x 5 path classes (plain, passthrough, always-forward, both, health) x 6 cookie relations (absent, malformed, behind, equal, ahead by one, far ahead) x delivery timing of the missing transaction (0, 1, 5, 4999 polling intervals, never) is sent through the real handler: a read with cookie t reaches the application only at position >= t (else 504 and the application saw nothing), reads whose position can be reached are served, writes on a non-primary never reach the application and get fly-replay (or 503 without a primary), the cookie issued after a proxied write names a position at or after the application's commit, passthrough requests arrive unchanged in every role.",
+   "Handler called directly (no listener); time-outs on the synctest fake clock; application is a stub.", "§4 C19"),
  "C01": ("model_checking", "E1-histories",
    "explicit-state BFS over event histories on a real 3-node cluster (replay-from-scratch successors, canonical state keys incl. private caches); reader-through-page-cache oracle at every state",
    "Every history up to the depth bound over {7 transaction shapes, checkpoint, partition/heal/cut, restarts, retention, demotion, handoff} from five start states (incl. lagging replica and fork-ahead-by-one preludes, both journal modes, LZ4) is executed on real stores; at every state every node's reader (position + all pages through a page cache only LiteFS invalidations refresh) must equal the primary's recorded image at that position, connected replicas must converge on the fake clock, no node may Exit, and the C04/C09/C15 monitors run.",
